@@ -13,6 +13,7 @@ def correspond(ctx, name, each, red=()):
         if not cs:
             continue
         bad = coq.corr_eval(nm, IMPORTS, fn, [(a, b) for a, b, _ in cs], shard=100)
+        ctx.count('model-out-of-fuel(undecided)', len(coq.LAST_FUEL))
         ctx.corr_cases += len(cs)
         ctx.corr_disagree += len(bad)
         for b in bad[:5]:
